@@ -140,13 +140,13 @@ func v1CreateInput(spec *TableSpec) *v1ddb.CreateTableInput {
 	for _, ix := range spec.Indexes {
 		if ix.Local {
 			in.LocalSecondaryIndexes = append(in.LocalSecondaryIndexes, &v1ddb.LocalSecondaryIndex{
-				IndexName: aws.String(ix.Name), KeySchema: v1KeySchema(ix.Hash, ix.Range),
+				IndexName: strp(ix.Name), KeySchema: v1KeySchema(ix.Hash, ix.Range),
 				Projection: v1Projection(ix),
 			})
 			continue
 		}
 		g := &v1ddb.GlobalSecondaryIndex{
-			IndexName: aws.String(ix.Name), KeySchema: v1KeySchema(ix.Hash, ix.Range),
+			IndexName: strp(ix.Name), KeySchema: v1KeySchema(ix.Hash, ix.Range),
 			Projection: v1Projection(ix),
 		}
 		if spec.Throughput {
@@ -469,7 +469,7 @@ func (c *V1) Do(op Op) (out Outcome) {
 					ad.add(ch.Create.Hash, ch.Create.HashT)
 					ad.add(ch.Create.Range, ch.Create.RangeT)
 				}
-				u.Create = &v1ddb.CreateGlobalSecondaryIndexAction{IndexName: aws.String(ch.Create.Name),
+				u.Create = &v1ddb.CreateGlobalSecondaryIndexAction{IndexName: strp(ch.Create.Name),
 					KeySchema:  v1KeySchema(ch.Create.Hash, ch.Create.Range),
 					Projection: v1Projection(*ch.Create), ProvisionedThroughput: v1Throughput()}
 			}
